@@ -518,6 +518,29 @@ pub fn run_case(tape: &mut Tape, _tier: Tier, _p: &CaseParams) -> CaseOutcome {
     let sslots = scratch["slots"].as_object().unwrap_or(&empty);
     let rslots = reloaded["slots"].as_object().unwrap_or(&empty);
     let bslots = before["slots"].as_object().unwrap_or(&empty);
+    // jsr requirements are resolved against what the graph selected before;
+    // a from-scratch build of the new sources can select differently
+    if let (Some(mr), Some(ms)) = (
+      reloaded["packages"]["mappings"].as_object(),
+      scratch["packages"]["mappings"].as_object(),
+    ) {
+      if let Some((req, nv)) = ms
+        .iter()
+        .find(|(req, nv)| mr.get(*req).is_some_and(|x| x != *nv))
+      {
+        out.violation(
+          "C19",
+          "reload-converges",
+          "reload:jsr-version-selection-differs",
+          format!(
+            "requirement {} stays resolved to {} after the reload but a from-scratch build of the new sources selects {}",
+            req, mr[req], nv
+          ),
+          ctx(json!({"req": req})),
+        );
+        return out;
+      }
+    }
     if !bslots.contains_key(edit_target.as_ref().unwrap().as_str()) {
       // the edited module was not in the graph: nothing to reload
       out.count("edit_target_not_in_graph", 1);
